@@ -488,7 +488,7 @@ MARK_OPEN = '/*+spec*/'
 MARK_CLOSE = '/*-spec*/'
 
 
-def build(repo, sidecar_path, extra_spec=None):
+def build(repo, sidecar_path, extra_spec=None, reach=False):
     """extra_spec: optional dict item-name -> list of extra spec lines (used for vacuity twins)."""
     unit = parse_sidecar(sidecar_path)
     g = Generated()
@@ -497,6 +497,15 @@ def build(repo, sidecar_path, extra_spec=None):
     g.add('// GENERATED by /verif/lib/verusgen.py from %s and the working tree of %s -- do not edit' % (sc, repo),
           lambda i: ('gen',))
     g.add('#![allow(unused, non_camel_case_types, non_snake_case, non_upper_case_globals, dead_code)]\nuse vstd::prelude::*;\nverus! {', lambda i: ('gen',))
+    g.reach = []   # reach twin: (k, fn name, description)
+    if reach:
+        g.add('pub uninterp spec fn verif_reach(k: int) -> bool;', lambda i: ('gen',))
+    def _rp(fn_name, desc):
+        # a reachability probe: an assertion that can never be proved, so it FAILS wherever control
+        # can arrive with a consistent context; a probe that does not fail marks a vacuous point
+        k = len(g.reach)
+        g.reach.append((k, fn_name, desc))
+        return '\n' + MARK_OPEN + '\n    proof { assert(verif_reach(%d)); }\n' % k + MARK_CLOSE + '\n'
     srcs = {}
     open_wrap = None
     for part in unit.parts:
@@ -771,10 +780,13 @@ def build(repo, sidecar_path, extra_spec=None):
             inserts = []
             # loops: positions relative to body
             lps = loops(body)
+            fnm_ = item.newname or item.name
             for n, lines in item.loops.items():
                 if n < 1 or n > len(lps):
                     raise ExtractionLost('%s: loop %d not found (function has %d loops)' % (where, n, len(lps)))
                 inserts.append((lps[n - 1][1], '\n' + MARK_OPEN + '\n' + '\n'.join(l for l, _ in lines) + '\n' + MARK_CLOSE + '\n'))
+                if reach:
+                    inserts.append((lps[n - 1][1] + 1, _rp(fnm_, 'body of loop %d' % n)))
             for (anchor, lines, ln) in item.loops_at:
                 # the first loop whose keyword is at or after the anchor (robust against reordering of
                 # match arms, unlike loop ordinals)
@@ -783,11 +795,14 @@ def build(repo, sidecar_path, extra_spec=None):
                 if not cand:
                     raise ExtractionLost('%s: no loop after anchor `%s`' % (where, anchor))
                 inserts.append((cand[0][1], '\n' + MARK_OPEN + '\n' + '\n'.join(l for l, _ in lines) + '\n' + MARK_CLOSE + '\n'))
+                if reach:
+                    inserts.append((cand[0][1] + 1, _rp(fnm_, 'body of the loop after `%s`' % anchor)))
             for (mode, n, anchor, lines, ln) in item.inserts:
                 p, pend = _nth(body, anchor, n, where)
                 if mode == 'after':
                     p = pend
-                inserts.append((p, '\n' + MARK_OPEN + '\n' + '\n'.join(l for l, _ in lines) + '\n' + MARK_CLOSE + '\n'))
+                inserts.append((p, (_rp(fnm_, '%s `%s` (#%d)' % (mode, getattr(anchor, 'pattern', anchor), n)) if reach else '')
+                                + '\n' + MARK_OPEN + '\n' + '\n'.join(l for l, _ in lines) + '\n' + MARK_CLOSE + '\n'))
             body = _apply_inserts(body, inserts, where)
             spec_lines = [l for l, _ in item.spec]
             if extra_spec and (item.newname or item.name) in extra_spec:
@@ -795,6 +810,8 @@ def build(repo, sidecar_path, extra_spec=None):
                 # REJECTED, i.e. the precondition is satisfiable.  (Not `ensures false`: callers
                 # inside the unit would then assume false after the call.)
                 body = '{\n' + MARK_OPEN + '\n    proof { assert(false); }\n' + MARK_CLOSE + '\n' + body[1:]
+            if reach and (item.spec or item.inserts or item.loops or item.loops_at):
+                body = '{' + _rp(fnm_, 'function entry') + body[1:]
             spec = ''
             if spec_lines:
                 spec = '\n' + MARK_OPEN + '\n' + '\n'.join(spec_lines) + '\n' + MARK_CLOSE + '\n'
@@ -844,7 +861,7 @@ def build(repo, sidecar_path, extra_spec=None):
                 elif not skip:
                     seg.append(l)
             tok = lambda t: re.findall(r'[A-Za-z0-9_]+|\S', t)
-            if tok('\n'.join(seg)) != tok(pre_splice) and not (extra_spec and (item.newname or item.name) in extra_spec):
+            if tok('\n'.join(seg)) != tok(pre_splice) and not (extra_spec and (item.newname or item.name) in extra_spec) and not reach:
                 raise ExtractionLost('%s: splice check failed (generated exec text differs from repository text after logged rewrites)' % where)
         g.items.append({'name': item.newname or item.name, 'kind': item.kind, 'path': item.path,
                         'src_line': src_line0, 'src_end_line': line_of(src, span[1]),
